@@ -7,6 +7,9 @@ from hypothesis import strategies as st
 ARGS = {"x": "int", "n": "int", "s": "str", "xs": "ilist", "ys": "ilist", "ss": "iset", "d": "sdict", "t": "itup",
         "o": "obj", "m": "mat", "id": "int", "G": "int", "zs": "sset", "q": "qobj"}
 CLOSURE = {"C": "int", "CS": "str", "CL": "ilist", "H": "int"}  # H exists as a module global too (closure wins)
+# parameters of the CONDITION itself that carry a default (the `k=k` idiom); a module global of the same name exists
+DEFAULTED = {"L": "int"}
+DEFAULT_VALUES = {"L": 41}
 GLOBALS = {"G": "int", "GS": "str", "GL": "ilist", "Y": "int"}  # plus d0 = {"a": 2} (only used by name in templates)
 EXTRA_ARGS = {"Y": "int"}  # a parameter of the function that the condition never takes; collides with the global Y
 CMP_OPS = ["<", "<=", ">", ">=", "==", "!="]
@@ -34,7 +37,8 @@ class Gen:
 
     def names_of(self, typ):
         out = []
-        for table, src in ((self.targets, "target"), (ARGS, "arg"), (CLOSURE, "closure"), (GLOBALS, "global")):
+        for table, src in ((self.targets, "target"), (ARGS, "arg"), (CLOSURE, "closure"), (GLOBALS, "global"),
+                           (DEFAULTED, "condition-default")):
             for k, v in table.items():
                 if v == typ and not (src != "target" and k in self.targets):
                     out.append((k, src))
@@ -44,7 +48,7 @@ class Gen:
         cands = self.names_of(typ)
         k, src = self.pick(cands)
         self.used.add((k, src))
-        if src in ("closure", "global"):
+        if src in ("closure", "global", "condition-default"):
             self.features.add(src)
         return k
 
@@ -455,7 +459,7 @@ def build_inputs(desc):
 
 
 CLOSURE_VALUES = {"C": 3, "CS": "cz", "CL": [1, 2, 3], "H": 200}
-GLOBAL_VALUES = {"G": 5, "GS": "gab", "GL": [4, 0, -1], "Y": 10, "H": 100, "d0": {"a": 2}}
+GLOBAL_VALUES = {"G": 5, "GS": "gab", "GL": [4, 0, -1], "Y": 10, "H": 100, "d0": {"a": 2}, "L": 97}
 
 
 @st.composite
